@@ -75,16 +75,15 @@ variable [DecidableEq α] {k : MKind} {n : Nat} {learning : Aid → Bool} {sh : 
 each agent once -/
 theorem c01_keys_agree (h : c01Step k n learning sh g acts e = true) (ho : e.res = .stepOk o) :
     keys o.rewards = keys o.obs ∧ keys o.dones = keys o.obs ∧ keys o.infos = keys o.obs ∧
-      (keys o.obs).Nodup := by
-  simp only [c01Step, ho, Bool.and_eq_true, beq_iff_eq, decide_eq_true_eq] at h
-  exact ⟨h.1.1.1.1.1.1.1.2, h.1.1.1.1.1.1.2, h.1.1.1.1.1.2, h.1.1.1.1.2⟩
+      (keys o.obs).Nodup :=
+  let u := c01Step_unpack h ho
+  ⟨u.keysR, u.keysD, u.keysI, u.nodup⟩
 
 /-- an agent already reported done in this episode is never included again
 (so each agent is reported done at most once) -/
 theorem c01_never_reports_done_agent (h : c01Step k n learning sh g acts e = true)
-    (ho : e.res = .stepOk o) : ∀ a ∈ keys o.obs, a ∉ g.R := by
-  simp only [c01Step, ho, Bool.and_eq_true, List.all_eq_true, decide_eq_true_eq] at h
-  exact h.1.1.1.2
+    (ho : e.res = .stepOk o) : ∀ a ∈ keys o.obs, a ∉ g.R :=
+  (c01Step_unpack h ho).notR
 
 /-- an action for an already-done agent is rejected, and the simulation was not advanced -/
 theorem c01_rejects_before_step (h : c01Step k n learning sh g acts e = true)
@@ -114,8 +113,7 @@ theorem c01_error_is_clean_rejection (h : c01Step k n learning sh g acts e = tru
 was asked to randomise the input order) -/
 theorem c01_actions_reach_sim (h : c01Step k n learning sh g acts e = true) (ho : e.res = .stepOk o) :
     ∃ args, e.simArgs = some args ∧ (if sh then permOf args acts = true else args = acts) := by
-  simp only [c01Step, ho, Bool.and_eq_true] at h
-  have h6 := h.1.1.2
+  have h6 := (c01Step_unpack h ho).args
   cases hs : e.simArgs with
   | none => simp [hs] at h6
   | some args =>
@@ -127,8 +125,7 @@ participating agent has been reported done -/
 theorem c01_allDone_iff (h : c01Step k n learning sh g acts e = true) (ho : e.res = .stepOk o) :
     o.allDone = true ↔
       (e.ghost.simAllDone = true ∨ ∀ a ∈ participating k n learning, a ∈ g.R ++ newlyDone o.dones) := by
-  simp only [c01Step, ho, Bool.and_eq_true, beq_iff_eq] at h
-  rw [h.1.2]
+  rw [(c01Step_unpack h ho).allDone]
   simp [List.all_eq_true]
 
 /-- every reward pending for a reported agent after the simulation step is delivered in this
@@ -136,8 +133,7 @@ output and its accumulator is empty afterwards; an unreported agent's pending re
 theorem c01_ledger (h : c01Step k n learning sh g acts e = true) (ho : e.res = .stepOk o) :
     ∀ a < n, (∀ r, o.rewards.lookup a = some r → r = e.accrued.getD a 0 ∧ e.ghost.pending.getD a 0 = 0) ∧
              (o.rewards.lookup a = none → e.ghost.pending.getD a 0 = e.accrued.getD a 0) := by
-  simp only [c01Step, ho, Bool.and_eq_true] at h
-  have hl := h.2
+  have hl := (c01Step_unpack h ho).ledger
   unfold ledgerOk at hl
   rw [List.all_eq_true] at hl
   intro a ha
